@@ -71,4 +71,22 @@ mod verif_kani {
         vk_cover!(r.is_ok());
         vk_cover!(r.is_err());
     }
+
+    // @HARNESS id=C08.rs.new.rejects_zero_source_symbols tier=quick kind=Kb props=C08 bound="k = 0, parity in 0..=255, every E" timeout=900
+    /// RSGalois8Codec::new(0, parity, E) is Err.  Block::create_shards_reed_solomon_gf8 calls `new(nb_source_symbols, ..)?`
+    /// BEFORE `encode`, and nb_source_symbols = ceil(buffer.len()/E) is 0 exactly for an empty buffer, so the
+    /// `shards.last_mut().unwrap()` of RSCodecParam::create_shards (a panic on an empty buffer) is not reached from Block.
+    #[cfg(kani)]
+    #[kani::proof]
+    #[kani::unwind(4)]
+    #[kani::stub(alloc::fmt::format, stub_format)]
+    #[kani::stub(crate::tools::error::FluteError::new, stub_flute_error_new)]
+    fn new_rejects_zero_source_symbols() {
+        h_new_rejects_zero_source_symbols(kani::any(), kani::any());
+    }
+    pub fn h_new_rejects_zero_source_symbols(parity: u8, e: u16) {
+        let r = RSGalois8Codec::new(0, parity as usize, e as usize);
+        assert!(r.is_err());
+        vk_cover!(parity > 0 && e > 0);
+    }
 }
